@@ -67,8 +67,13 @@ type AccountSpec struct {
 }
 
 type NodeSpec struct {
-	Key        crypto.PrivateKey
-	Output     crypto.PrivateKey // nil = no output address (custodial)
+	Key crypto.PrivateKey
+	// ViaTx: the node is not part of the genesis file; its operator stakes with a MsgStake in the setup block that
+	// follows the warm-up (non-custodial record with output address and reward delegators). Genesis validators are
+	// stored in the legacy custodial form (genesis lies before the NCUST activation): Output and Delegators of a
+	// non-ViaTx node never reach state.
+	ViaTx      bool
+	Output     crypto.PrivateKey // nil = the operator itself (ViaTx) / none (genesis, custodial)
 	Stake      int64
 	Chains     []string
 	URL        string
@@ -212,6 +217,25 @@ func BuildGenesis(spec *Spec) app.GenesisState {
 	// auth
 	authGen := authTypes.GenesisState{Params: spec.AuthParams}
 	faucet := int64(0)
+	extra := map[string]int64{} // stake + fee of operators that stake by transaction
+	for _, n := range spec.Nodes {
+		if n.ViaTx {
+			extra[Addr(n.Key).String()] += n.Stake + DefaultFee
+		}
+	}
+	seen := map[string]bool{}
+	for _, a := range spec.Accounts {
+		if a.Multi == nil {
+			seen[Addr(a.Key).String()] = true
+		}
+	}
+	for _, n := range spec.Nodes {
+		if n.ViaTx && !seen[Addr(n.Key).String()] {
+			seen[Addr(n.Key).String()] = true
+			authGen.Accounts = append(authGen.Accounts, &auth.BaseAccount{Address: Addr(n.Key), Coins: sdk.NewCoins(sdk.NewCoin(sdk.DefaultStakeDenom, sdk.NewInt(extra[Addr(n.Key).String()]))), PubKey: n.Key.PublicKey()})
+			delete(extra, Addr(n.Key).String())
+		}
+	}
 	for _, a := range spec.Accounts {
 		// genesis validation requires a public key on every genesis account
 		var ba *auth.BaseAccount
@@ -221,7 +245,8 @@ func BuildGenesis(spec *Spec) app.GenesisState {
 			faucet += a.Balance + DefaultFee
 			continue
 		}
-		ba = &auth.BaseAccount{Address: Addr(a.Key), Coins: sdk.NewCoins(sdk.NewCoin(sdk.DefaultStakeDenom, sdk.NewInt(a.Balance))), PubKey: a.Key.PublicKey()}
+		ba = &auth.BaseAccount{Address: Addr(a.Key), Coins: sdk.NewCoins(sdk.NewCoin(sdk.DefaultStakeDenom, sdk.NewInt(a.Balance+extra[Addr(a.Key).String()]))), PubKey: a.Key.PublicKey()}
+		delete(extra, Addr(a.Key).String())
 		authGen.Accounts = append(authGen.Accounts, ba)
 	}
 	if faucet > 0 {
@@ -232,6 +257,9 @@ func BuildGenesis(spec *Spec) app.GenesisState {
 	ng := nodesTypes.DefaultGenesisState()
 	ng.Params = spec.NodeParams
 	for _, n := range spec.Nodes {
+		if n.ViaTx {
+			continue
+		}
 		v := nodesTypes.Validator{
 			Address: Addr(n.Key), PublicKey: n.Key.PublicKey(), Status: sdk.Staked, Chains: n.Chains,
 			ServiceURL: n.URL, StakedTokens: sdk.NewInt(n.Stake), RewardDelegators: n.Delegators,
@@ -411,32 +439,23 @@ func NewNodeOnDB(spec *Spec, db, blockDB, txDB dbm.DB, initChain bool) *Node {
 				fund = append(fund, SignTx(spec.ChainID, msg, DefaultFee, "", int64(-1000-i), FaucetKey))
 			}
 		}
-		// Genesis validators are stored in the legacy (pre-non-custodial) form because the genesis height lies before
-		// the NCUST activation: output address and reward delegators of the spec do not reach state through genesis.
-		// As on main-net, operators set them with an edit-stake once the feature is active.
-		if spec.Warmup >= 3 {
-			hasAccount := map[string]bool{}
-			for _, a := range spec.Accounts {
-				if a.Multi == nil {
-					hasAccount[Addr(a.Key).String()] = true
-				}
+		// Nodes marked ViaTx stake now (all features are active): full non-custodial records with output address and
+		// reward delegators, and fresh signing infos.
+		for i, nd := range spec.Nodes {
+			if !nd.ViaTx {
+				continue
 			}
-			for i, nd := range spec.Nodes {
-				if !hasAccount[Addr(nd.Key).String()] {
-					continue // operator cannot pay the fee: the record stays in its legacy genesis form
-				}
-				out := nd.Key
-				if nd.Output != nil {
-					out = nd.Output
-				}
-				url := nd.URL
-				if url == "" {
-					url = "https://node.example:443"
-				}
-				msg := &nodesTypes.MsgStake{PublicKey: nd.Key.PublicKey(), Chains: nd.Chains, Value: sdk.NewInt(nd.Stake), ServiceUrl: url,
-					Output: Addr(out), RewardDelegators: nd.Delegators}
-				fund = append(fund, SignTx(spec.ChainID, msg, DefaultFee, "", int64(-2000-i), nd.Key))
+			out := nd.Key
+			if nd.Output != nil {
+				out = nd.Output
 			}
+			url := nd.URL
+			if url == "" {
+				url = "https://node.example:443"
+			}
+			msg := &nodesTypes.MsgStake{PublicKey: nd.Key.PublicKey(), Chains: nd.Chains, Value: sdk.NewInt(nd.Stake), ServiceUrl: url,
+				Output: Addr(out), RewardDelegators: nd.Delegators}
+			fund = append(fund, SignTx(spec.ChainID, msg, DefaultFee, "", int64(-2000-i), nd.Key))
 		}
 		if len(fund) > 0 {
 			r := n.RunBlock(Block{DT: time.Second, Txs: fund})
@@ -446,6 +465,8 @@ func NewNodeOnDB(spec *Spec, db, blockDB, txDB dbm.DB, initChain bool) *Node {
 				}
 			}
 			n.Warm = append(n.Warm, r)
+			// two more empty blocks: validator updates of the setup block reach the consensus set
+			n.Warm = append(n.Warm, n.RunBlock(Block{DT: time.Second}), n.RunBlock(Block{DT: time.Second}))
 		}
 	} else {
 		n.Height = n.App.LastBlockHeight()
